@@ -219,6 +219,14 @@ def main(tier):
             tasks.append({'kind': 'round_decimal', 'D': 3, 'p': p, 'mode': mode})
             tasks.append({'kind': 'round_with_context', 'D': 3, 'p': p, 'mode': mode})
             tasks.append({'kind': 'round_decimal_ref', 'D': 3, 'p': p, 'mode': mode, 'form': ('&BigDecimal', "BigDecimalRef<'_>", '&num_bigint::BigInt')[p % 3]})
+    # 18-20 digit inputs (around i64::MAX / u64::MAX) through every precision-rounding entry point
+    for mode in ('HalfEven', 'Up', 'Floor', 'Down'):
+        for p in (1, 2, 19):
+            for kind in ('with_precision_round', 'round_decimal', 'round_with_context'):
+                tasks.append({'kind': kind, 'D': 20, 'p': p, 'mode': mode, 'Lmin': 18})
+            tasks.append({'kind': 'round_decimal_ref', 'D': 20, 'p': p, 'mode': mode, 'form': ('&BigDecimal', "BigDecimalRef<'_>", '&num_bigint::BigInt')[p % 3], 'Lmin': 18})
+    tasks.append({'kind': 'with_prec', 'D': 20, 'p': 1, 'Lmin': 18})
+    tasks.append({'kind': 'with_prec', 'D': 20, 'p': 19, 'Lmin': 18})
     # real digit-counting body (no contract) on a smaller bound
     for mode in ('HalfEven', 'Up'):
         for p in (1, 2, 5):
